@@ -28,3 +28,22 @@ Proof.
   intros cfg fn args valid I. pose proof bounds_required_met as H. rewrite forallb_forall in H.
   exact (breq_met_sound _ _ _ _ _ _ (H _ I)).
 Qed.
+
+(* the incremental AEAD part of the list on its own (audit 2, gap 7b): 1002 requirements = 3 state layouts x (106 + 122 + 106) runs,
+   all of them part of bounds_required, all within contract, all met by the regenerated table (none stuck) *)
+Lemma inc_required_checked :
+  List.length inc_required = 1002%nat /\ incl inc_required bounds_required /\
+  forallb (fun q => snd q) inc_required = true /\
+  forallb (breq_met (fun _ => false) bounds_entries) inc_required = true /\
+  existsb (fun e => String.eqb (be_config e) "aead-inc/default") bounds_entries = true /\
+  breq_in "aead-inc/c32"%string "ascon80pq_aead_init"%string [("k", 1%N); ("npub", 0%N)]%string inc_required = true /\
+  breq_in "aead-inc/default"%string "ascon128a_aead_reinit"%string [("k", 0%N); ("npub", 2%N)]%string inc_required = true /\
+  breq_in "aead-inc/directxor"%string "ascon128_aead_decrypt_block"%string [("alias", 1%N); ("len", 19%N); ("posn", 7%N)]%string inc_required = true /\
+  breq_in "aead-inc/default"%string "ascon80pq_aead_start"%string [("adlen", 0%N)]%string inc_required = true /\
+  breq_in "aead-inc/c32"%string "ascon128a_aead_decrypt_finalize"%string [("posn", 15%N)]%string inc_required = true.
+Proof.
+  split; [vm_compute; reflexivity|].
+  split; [unfold bounds_required; intros q Hq; do 4 (apply in_or_app; right); exact Hq|].
+  split; [vm_compute; reflexivity|]. split; [vm_compute; reflexivity|]. split; [vm_compute; reflexivity|].
+  repeat split; vm_compute; reflexivity.
+Qed.
